@@ -228,6 +228,10 @@ func NodeStr(fset *token.FileSet, n ast.Node) string { return ExprStr(n) }
 
 func Trunc(s string, n int) string {
 	if len(s) > n {
+		// cut on a rune boundary (keys contain ‹...› tokens)
+		for n > 0 && s[n]&0xC0 == 0x80 {
+			n--
+		}
 		return s[:n] + "…"
 	}
 	return s
